@@ -8,7 +8,7 @@ from crosshair.tracers import NoTracing
 from tartiflette import create_engine, Directive, Scalar, Resolver
 
 META = {
-    "bounds": "catalogue of 116 rule-breaking SDL texts (every rule of the statement at several sites: field / argument / input field / wrapped / via extend / in a second file) "
+    "bounds": "catalogue of 121 rule-breaking SDL texts (every rule of the statement at several sites: field / argument / input field / wrapped / via extend / in a second file) "
               "+ generators over wrapper bits for interface conformance (field type 8x8 wrappings x 4 base-type pairs, argument type 8x8, extra argument nullability/default)",
     "outside": "SDL outside the catalogue/generators; engine builds run concretely (create_engine under tracing costs ~40 s because of the lark parse: the selectors are "
                "resolved by branching, then the build runs untraced on concrete text — the solver contributes the exhaustive enumeration of the selector space only)",
@@ -109,6 +109,8 @@ CATALOGUE = [
     ("non-input argument type (list of interface) on an unimplemented interface", OK_BASE + "interface Lone { f(again: [Lone]): Int }"), ("undefined argument type in an extension of an unimplemented interface", OK_BASE + "interface Lone { x: Int } extend interface Lone { g(by: [Missing!]): Int }"),
     ("undefined field type on an unimplemented interface", OK_BASE + "interface Lone { f: Missing }"),
     # empty / self / duplicates
+    ("query root without fields", "type Query"), ("query root without fields (custom root name)", "schema { query: Root } type Root"), ("field-less Query among well-formed types", "type Query type T { x: Int } enum E { A }"),
+    ("field-less mutation root", OK_BASE + "type Mutation"), ("field-less object used as a field type", "type Query { e: Empty } type Empty"),
     ("object without fields", OK_BASE + "type Empty"), ("interface-implementing object without fields", OK_BASE + "interface I { x: Int } type Empty implements I"),
     ("union containing itself", OK_BASE + "type A { x: Int } union U = A | U"), ("union containing only itself", OK_BASE + "union U = U"),
     ("duplicate enum values", OK_BASE + "enum E { A B A }"), ("duplicate enum values (adjacent)", OK_BASE + "enum E { A A }"), ("duplicate enum value via extend", OK_BASE + "enum E { A B } extend enum E { B }"),
